@@ -13,6 +13,31 @@ static const std::vector<std::string> kPorts = {"", "80", "0", "65536", "8080"};
 static const std::vector<std::string> kSegs = {"", ".", "..", "a", "b", "c", "a:b", ":", "%2e", "%2E%2e", "%41", "%c3%a9", ";x", "a.b", "...", "%2F", "A",
     "%7e", "x%3a", "b:c", "..a", "%2e%2e", "d", "", ".", ".."};
 static const std::vector<std::string> kQF = {"", "q", "a=b&c", "%7E%2f", "?/", "x%41", "k=v%20w", "%3d", ":@/?"};
+// hosts: fixed vocabulary plus seeded IPv4 / IPv6 literals whose octets and groups sit on rendering boundaries
+static std::string pick_host(Rng& r) {
+    int k = (int)r.below(100);
+    if (k < 62) return r.pick(kHosts);
+    static const int oct[] = {0, 1, 9, 10, 19, 20, 99, 100, 101, 109, 110, 199, 200, 249, 250, 255};
+    auto ip4 = [&]() { std::string t; for (int i = 0; i < 4; i++) { if (i) t += "."; t += std::to_string(oct[r.below(16)]); } return t; };
+    if (k < 80) return ip4();
+    static const char* grp[] = {"0", "1", "a", "F", "10", "ab", "100", "aBc", "1000", "ffff", "FFFF", "dB8", "0000", "01"};
+    std::string t = "[";
+    int n = r.range(1, 8), zip = r.chance(600) ? r.range(0, n) : -1;
+    bool v4 = r.chance(200);
+    if (zip < 0) n = v4 ? 6 : 8;
+    for (int i = 0; i < n; i++) {
+        if (i == zip) t += i == 0 ? "::" : ":";
+        t += grp[r.below(14)];
+        if (i + 1 < n || v4) t += ":";
+    }
+    if (zip == n) t += t.back() == ':' ? ":" : "::";
+    if (v4) t += ip4(); else if (t.back() == ':' && !(t.size() >= 2 && t[t.size() - 2] == ':')) t.pop_back();
+    t += "]";
+    return t;
+}
+// segments: fixed vocabulary, more often the rarer colon / empty shapes when asked for a "special" segment
+static const std::vector<std::string> kSpecialSegs = {"a:b", ":", "1:c", ":80", "%31:c", "12:30", "_:x", "", "", "x%3a", "b:c", "..", "."};
+
 static const char kMutBytes[] = "[]%:/?#@.\x80\xff \\^{}|\"<>`a1AfF~-_+;=&!$'()*,\x7f\x01";
 
 std::string uri_text(Rng& r, const TextCfg& c) {
@@ -22,17 +47,30 @@ std::string uri_text(Rng& r, const TextCfg& c) {
     if (auth) {
         t += "//";
         if (r.chance(300)) t += r.pick(kUser) + "@";
-        t += r.pick(kHosts);
+        t += pick_host(r);
         if (r.chance(300)) t += ":" + r.pick(kPorts);
     }
     int nseg = r.chance(150) ? 0 : r.range(1, c.max_segs);
     if (c.long_mode) nseg = r.range(1, c.max_segs * 8);
+    std::vector<std::string> segs;
+    if (nseg && r.chance(140)) {
+        // dot-cancel flavour: k ordinary segments, the dot segments that cancel them (sometimes one more or one fewer),
+        // then a segment that must not end up first unguarded (colon, empty, empty+empty)
+        int k = r.range(1, 3);
+        static const std::vector<std::string> plain = {"a", "b", "x", "%7e", "A"};
+        for (int i = 0; i < k; i++) segs.push_back(r.pick(plain));
+        int ups = k + r.range(-1, 1);
+        for (int i = 0; i < ups; i++) { segs.push_back(r.chance(850) ? ".." : "%2E%2e"); if (r.chance(200)) segs.push_back("."); }
+        int sp = r.range(1, 3);
+        for (int i = 0; i < sp; i++) segs.push_back(r.pick(kSpecialSegs));
+        if (r.chance(400)) segs.push_back(r.pick(kSegs));
+    } else for (int i = 0; i < nseg; i++) segs.push_back(r.chance(60) ? r.pick(kSpecialSegs) : r.pick(kSegs));
     if (auth) {
-        for (int i = 0; i < nseg; i++) t += "/" + r.pick(kSegs);
-    } else if (nseg) {
+        for (auto& sg : segs) t += "/" + sg;
+    } else if (!segs.empty()) {
         bool abs = r.chance(420);
         if (abs) t += "/";
-        for (int i = 0; i < nseg; i++) { if (i) t += "/"; t += r.pick(kSegs); }
+        for (size_t i = 0; i < segs.size(); i++) { if (i) t += "/"; t += segs[i]; }
     }
     if (r.chance(300)) t += "?" + r.pick(kQF);
     if (r.chance(280)) t += "#" + r.pick(kQF);
@@ -69,7 +107,7 @@ UriParts random_parts(Rng& r, const TextCfg& c) {
     p.has_auth = r.chance(450);
     if (p.has_auth) {
         p.has_user = r.chance(300); if (p.has_user) p.user = r.pick(kUser);
-        p.host = r.pick(kHosts);
+        p.host = pick_host(r);
         p.has_port = r.chance(300); if (p.has_port) p.port = r.pick(kPorts);
     }
     int nseg = r.chance(150) ? 0 : r.range(1, c.max_segs);
@@ -109,7 +147,9 @@ UriParts edit_one(Rng& r, const UriParts& p0, std::string* what) {
                     size_t e = p.host.rfind(']');
                     if (e != std::string::npos && e >= 2) { size_t i = r.chance(600) ? e - 1 : 1; char c = p.host[i]; if (isxdigit((unsigned char)c)) { p.host[i] = c == '1' ? '2' : '1'; *what = "host-ip-literal"; return p; } }
                 } break;
-        case 3: if (p.has_auth && !p.host.empty() && p.host[0] != '[') { p.host = tweak(r, p.host, "0123456789abh"); *what = "host"; return p; } break;
+        case 3: if (p.has_auth && !p.host.empty() && p.host[0] != '[') { p.host = tweak(r, p.host, "0123456789abh"); *what = "host"; return p; }
+                if (p.has_auth && p.host.size() > 3 && p.host[0] == '[' && (p.host[1] == 'v' || p.host[1] == 'V') && p.host.find(':') == std::string::npos) { p.host = p.host.substr(1, p.host.size() - 2); *what = "host-kind-same-text"; return p; }
+                break;
         case 4: if (p.has_auth) { if (p.has_port && r.chance(300)) p.has_port = false; else { p.port = p.has_port ? tweak(r, p.port, "0123456789") : (r.chance(500) ? "" : "8"); p.has_port = true; } *what = "port"; return p; } break;
         case 5: if (!p.segs.empty()) { size_t i = r.below((uint32_t)p.segs.size()); p.segs[i] = tweak(r, p.segs[i], "abcdAB.%"); *what = "segment"; return p; } break;
         case 6: p.segs.push_back(r.chance(500) ? "" : "z"); *what = "segment-added"; return p;
@@ -214,6 +254,7 @@ std::vector<Op> history(Rng& r, const HistCfg& c) {
         o.mgr = c.nmgrs > 1 ? r.range(0, c.nmgrs - 1) : 0;
         o.placement = r.range(0, 1); o.trail = r.range(0, 16);
         if (c.refree && r.chance(200)) o.refree = r.range(1, 3);
+        if (c.entries && r.chance(80)) o.opt = 1;   // no error-position out-parameter
         ops.push_back(o);
         text_of[(size_t)slot] = o.text;
         size_t p = o.text.find(':');
